@@ -16,7 +16,7 @@ from harness import detsched
 
 logging.disable(logging.CRITICAL)
 REPO = os.environ.get("VERIF_REPO", "/repo")
-NW = 4
+NW = 7          # worker ids of a recorded execution (threads past their last bookkeeping step linger: more than max_threads can exist)
 STEP_CAP = 1500
 
 STUTTER = {"thread_join", "ret", "cond_wait", "qget_nowait_empty", "fut_is_set", "fut_wait",
